@@ -5,7 +5,7 @@ usage: tools/run_seeded.py [--tier quick] [--verify] [--checks C01,C02 | --all-c
   For each seeded change: copy /repo's working tree to a scratch directory outside /repo and /verif, apply patch.diff,
   run the check of the property named in meta.json (or the checks given) with VERIF_REPO=<scratch>, expect exit 1.
   --verify additionally re-confirms the seed itself: demo fails on the changed tree, passes on the clean tree, and the
-  repository's own test-suite shows no new failure.  The scratch copy is removed afterwards.  Results: seeded/RESULTS.json
+  repository's own test-suite shows no new failure.  The scratch copy is removed afterwards.  Results: seeded/<name>/result.json (one file per change, so several runs can work on disjoint changes at once)
 """
 import argparse
 import json
@@ -56,8 +56,7 @@ def main():
     ap.add_argument('--checks', default='')
     a = ap.parse_args()
     names = a.names or sorted(d for d in os.listdir(SEEDED) if os.path.isdir(os.path.join(SEEDED, d)))
-    results_path = os.path.join(SEEDED, 'RESULTS.json')
-    results = json.load(open(results_path)) if os.path.exists(results_path) else {}
+    results = {}
     for name in names:
         d = os.path.join(SEEDED, name)
         meta = json.load(open(os.path.join(d, 'meta.json')))
@@ -68,8 +67,9 @@ def main():
             sh(['rsync', '-a', '--exclude', '.git', '/repo/', tree + '/'])
             rc, out = sh(['git', 'init', '-q'], cwd=tree)
             rc, out = sh(['git', 'apply', '--whitespace=nowarn', os.path.join(d, 'patch.diff')], cwd=tree)
-            entry = results.get(name, {})
-            entry.update({'property': meta['property'], 'summary': meta.get('summary', '')})
+            rpath = os.path.join(d, 'result.json')
+            entry = json.load(open(rpath)) if os.path.exists(rpath) else {}
+            entry.update({'property': meta['property']})
             if rc != 0:
                 entry['applies'] = False
                 entry['apply_output'] = out[-500:]
@@ -104,7 +104,8 @@ def main():
             results[name] = entry
         finally:
             shutil.rmtree(scratch, ignore_errors=True)
-        json.dump(results, open(results_path, 'w'), indent=1, sort_keys=True)
+        if name in results:
+            json.dump(results[name], open(os.path.join(d, 'result.json'), 'w'), indent=1, sort_keys=True)
 
 
 if __name__ == '__main__':
